@@ -44,8 +44,8 @@ impl Property for C09 {
     }
     fn runs(&self, tier: Tier) -> u64 {
         match tier {
-            Tier::Quick => 600,
-            Tier::Thorough => 12000,
+            Tier::Quick => 2000,
+            Tier::Thorough => 40000,
         }
     }
     fn rule(&self) -> &'static str {
